@@ -65,6 +65,7 @@ func Run(r *vk.Run) {
 
 	checkGolden(ctx, r)
 	observeInvalidUTF8(r)
+	callerWrites(r)
 	roundTrips(ctx, r, nCases)
 	commitments(r, nCommit)
 	totality(ctx, r, nInputs)
